@@ -172,6 +172,18 @@ def tag_float(x):
     return {"f": repr(x)}
 
 
+def gen_float_tag(rng):
+    """a float setting; its JSON rendering is Python's repr, or (20%) another literal JSON allows for a number: exponent
+    with e or E, with or without a sign, with or without a fraction (1e5, 2E3, -3e2, 1.5E+3, 12e-1, 0e0)"""
+    if rng.random() < 0.8:
+        return tag_float(gen_float(rng))
+    mant = str(rng.choice([0, 1, 2, 3, 7, 12, 25, 104]))
+    if rng.random() < 0.4:
+        mant += "." + rng.choice(["0", "5", "25", "125"])
+    lit = "%s%s%s%s%d" % (rng.choice(["", "", "-"]), mant, rng.choice("eE"), rng.choice(["", "", "+", "-"]), rng.randint(0, 12))
+    return {"f": lit}
+
+
 def gen_str(rng, plain=False):
     r = rng.random()
     if plain or r < 0.4:
@@ -246,7 +258,7 @@ def gen_value(rng, t, fit):
     if k == "int":
         return {"i": str(gen_int(rng))}
     if k == "float":
-        return tag_float(gen_float(rng)) if rng.random() < 0.85 else {"i": str(gen_int(rng))}
+        return gen_float_tag(rng) if rng.random() < 0.85 else {"i": str(gen_int(rng))}
     if k == "bool":
         return rng.random() < 0.5
     if k == "none":
@@ -288,7 +300,7 @@ def gen_any_value(rng, depth):
         if c == 2:
             return {"i": str(gen_int(rng))}
         if c == 3:
-            return tag_float(gen_float(rng))
+            return gen_float_tag(rng)
         return gen_str(rng)
     if r < 0.8:
         return {"l": [gen_any_value(rng, depth - 1) for _ in range(rng.randint(0, 3))]}
@@ -409,6 +421,52 @@ def gen_hist(rng, mode):
     return {"kind": "hist", "mode": mode, "poison_mode": rng.choice(MODES[:2]), "settings": s, "poison": poison}
 
 
+# ---- sub-command family ------------------------------------------------------------------------------------------------------
+TAME = [["int"], ["float"], ["bool"], ["str"], ["list", ["int"]], ["list", ["str"]], ["list", ["float"]], ["union", [["int"], ["none"]]],
+        ["dict", False, ["int"]], ["tuple", [["int"], ["str"]]], ["enum", ["a", "b"]], ["set", ["int"]], ["tuplevar", ["float"]]]
+
+
+def tame_value(rng, t):
+    """a value the type accepts through every channel: plain words for strings, no None"""
+    k = t[0]
+    if k == "str":
+        return rng.choice(WORDS)
+    if k == "int":
+        return {"i": str(rng.randint(-1000, 1000))}
+    if k == "float":
+        return gen_float_tag(rng) if rng.random() < 0.8 else {"i": str(rng.randint(-50, 50))}
+    if k == "bool":
+        return rng.random() < 0.5
+    if k == "enum":
+        return rng.choice(t[1])
+    if k == "union":
+        return tame_value(rng, t[1][0])
+    if k in ("list", "set", "tuplevar"):
+        return {"l": [tame_value(rng, t[1]) for _ in range(rng.choice([0, 1, 2, 3]))]}
+    if k == "tuple":
+        return {"l": [tame_value(rng, x) for x in t[1]]}
+    if k == "dict":
+        return {"d": [[kk, tame_value(rng, t[2])] for kk in sorted(rng.sample(WORDS, rng.randint(0, 3)))]}
+    raise ValueError(t)
+
+
+def gen_sub(rng, modes):
+    """a parser with sub-commands: one top-level key and 1-3 keys of the chosen sub-command (not necessarily the first)"""
+    def leaf(name):
+        t = rng.choice(TAME)
+        v = tame_value(rng, t)
+        return {"name": name, "ty": t, "val": v, "text": top_text(v)}
+
+    subs = rng.choice([["fit", "test"], ["train", "eval", "predict"], ["a", "b_c"]])
+    chosen = rng.choice(subs)
+    leaves = [leaf(n) for n in rng.sample(["lr", "tags", "num_items", "my_opt", "depth"], rng.randint(1, 3))]
+    top = leaf("top")
+    inner = ", ".join("%s: %s" % (json.dumps(l["name"]), json_text(l["val"])) for l in leaves)
+    doc = '{"top": %s, "subcommand": %s, %s: {%s}}' % (json_text(top["val"]), json.dumps(chosen), json.dumps(chosen), inner)
+    return {"kind": "sub", "prefix": rng.choice(PREFIXES), "modes": modes, "subs": subs, "chosen": chosen, "top": top,
+            "leaves": leaves, "doc": doc}
+
+
 def generate(rng, tier):
     ensure_judge()
     cases = list(known_cases(rng).values())
@@ -438,6 +496,8 @@ def generate(rng, tier):
         cases.append(c)
     for _ in range(60 if tier == "quick" else 400):
         cases.append(gen_hist(rng, rng.choice(MODES)))
+    for _ in range(50 if tier == "quick" else 250):
+        cases.append(gen_sub(rng, list(MODES) if tier == "thorough" and rng.random() < 0.3 else ["yaml", rng.choice(MODES[1:])]))
     return cases
 
 
@@ -606,9 +666,15 @@ def term_hist(case, obs):
             % (g_list(script, "pitem"), g_bool(obs["poison"] == "rejected"), g_list(hobs, "hob")))
 
 
+def sub_leaves(case):
+    return [dict(case["top"], key="top")] + [dict(l, key=case["chosen"] + "." + l["name"]) for l in case["leaves"]]
+
+
 def term(case, obs):
     if case.get("kind") == "hist":
         return term_hist(case, obs)
+    if case.get("kind") == "sub":
+        return "Group %s" % g_list([term_setting(l, o) for l, o in zip(sub_leaves(case), obs["leaves"])], "case")
     return "Setting (%s)" % term_setting(case, obs)
 
 
@@ -625,7 +691,7 @@ def term_setting(case, obs):
 # evidence helpers
 # ---------------------------------------------------------------------------------------------------------------------
 def nontrivial_key(case, obs):
-    if case.get("kind") == "hist":
+    if case.get("kind") in ("hist", "sub"):
         return json.dumps(case, sort_keys=True)
     if len(obs["chan"]) < 8:
         return None
@@ -643,6 +709,11 @@ def vkind(v):
 
 
 def category(case, obs):
+    if case.get("kind") == "sub":
+        outs = {json.dumps(o) for l in obs["leaves"] for o in l["chan"].values()}
+        same = all(len({json.dumps(o) for o in l["chan"].values()}) == 1 for l in obs["leaves"])
+        return "sub-commands: %d of %d chosen, %d keys / %s" % (case["subs"].index(case["chosen"]) + 1, len(case["subs"]),
+                                                                len(case["leaves"]) + 1, "channels agree" if same else "channels differ")
     if case.get("kind") == "hist":
         same = all(c == a for c, a in obs["hist"].values())
         return "history: %d-item earlier call %s / %s" % (len(case["poison"]), obs["poison"], "same answers after" if same else "answers changed")
@@ -653,6 +724,18 @@ def category(case, obs):
 
 
 def describe(case, obs):
+    if case.get("kind") == "sub":
+        per = {}
+        for l in obs["leaves"]:
+            groups = {}
+            for name, oc in l["chan"].items():
+                groups.setdefault(json.dumps(oc), []).append(name)
+            per[l["key"]] = {k: sorted(v) for k, v in groups.items()}
+        return {"parser": "--cfg, --top: %s, sub-commands %s; %s has %s" % (case["top"]["ty"], case["subs"], case["chosen"],
+                                                                          {l["name"]: l["ty"] for l in case["leaves"]}),
+                "env_prefix": case["prefix"], "settings document": case["doc"],
+                "environment mapping (given to parse_env; set in os.environ for parse_args(env=True))": obs.get("envmap"),
+                "key -> outcome -> channels (mode/channel)": per}
     if case.get("kind") == "hist":
         return {"parser": "opt: dataclass(lr: int = 1, name: str = 'sgd'), opts: List[it], omap: Dict[str, it], oopt: Optional[it], "
                           "cal: calendar.Calendar (subclass type), steps: int = 3, cfg: ActionConfigFile; a fresh parser per call",
@@ -671,6 +754,17 @@ def describe(case, obs):
 
 
 def shrink(case):
+    if case.get("kind") == "sub":
+        if len(case["modes"]) > 1:
+            for m in case["modes"]:
+                yield dict(case, modes=[m])
+        for i in range(len(case["leaves"])):
+            if len(case["leaves"]) > 1:
+                ls = case["leaves"][:i] + case["leaves"][i + 1:]
+                inner = ", ".join("%s: %s" % (json.dumps(l["name"]), json_text(l["val"])) for l in ls)
+                yield dict(case, leaves=ls, doc='{"top": %s, "subcommand": %s, %s: {%s}}' % (
+                    json_text(case["top"]["val"]), json.dumps(case["chosen"]), json.dumps(case["chosen"]), inner))
+        return
     if case.get("kind") == "hist":
         for i in range(len(case["poison"])):
             yield dict(case, poison=case["poison"][:i] + case["poison"][i + 1:])
@@ -786,7 +880,7 @@ def search(rng, tier, broken):
         texts = checker_witnesses()
     except Exception:
         pass
-    texts += ["1e+16", "1e-07", "2E5", "-3e2", "0e0", "1.5e300", "12", "-7", "0", "0.5", "-0.25", "1.0e2"]
+    texts += ["1e+16", "1e-07", "1e5", "2E5", "-3e2", "0e0", "1.5e300", "12", "-7", "0", "0.5", "-0.25", "1.0e2", "1E+2", "12e-1"]
     cases = []
     for w in texts:
         try:
@@ -796,7 +890,7 @@ def search(rng, tier, broken):
         v = {"f": w} if isinstance(x, float) else {"i": w}
         for t in (["float"], ["int"], ["list", ["float"]], ["any"]):
             vv = {"l": [v]} if t[0] == "list" else v
-            cases.append(make_case(rng, t, vv, key=["k"]))
+            cases.append(make_case(rng, t, vv, key=["k"], modes=["yaml", "json", "omegaconf"]))
     cases += generate(rng, "quick")[:300]
     obs = observe(cases)
     bm, bi, bo = fw.judge_cases(sys.modules[__name__], cases, obs, tag="x")
